@@ -220,7 +220,8 @@ def valid_server_name(config: Config, request: "Request") -> bool:
             # A host that is not valid UTF-8 cannot match a configured name
             host = value.decode("utf-8", "replace")
             break
-    return host in config.server_names
+    # Host names are case-insensitive (RFC 3986 3.2.2)
+    return host.lower() in {name.lower() for name in config.server_names}
 
 
 def is_asgi(app: Any) -> bool:
